@@ -323,40 +323,60 @@ example : V4.fromStr "1.2.3.4/24x".toList = .error .addressValueError := by rfl
 
 /-! ## IPv6 text level -/
 
-/-- **IPv6 text forms, exploded spelling** (`xxxx:xxxx:…:xxxx/len`, `xxxx:…:xxxx<blanks>len`, surrounding
-blanks, ASCII digits with leading zeros for `len`): the constructor builds the object of `(ip, len)`.
-The guard `len(input) ≤ 43` is the one the code applies to the raw input (finding F33). -/
+/-- **IPv6 text forms, exploded spelling** (`xxxx:xxxx:…:xxxx/len`, `xxxx:…:xxxx<blanks>len`, any
+surrounding blanks, ASCII digits with leading zeros for `len`): the constructor builds the object of
+`(ip, len)`.  The length guard of the code (49 characters, applied to the normalised text since the
+repair of F33) only limits the number of digits of `len` to 9; blanks never count. -/
 theorem v6_text_forms_exploded (ip len : Nat) (hip : ip < 2 ^ 128) (hlen : len ≤ 128)
     (digits : Str) (hne : digits ≠ []) (hd : ∀ c ∈ digits, isDigit c = true) (hv : ofDigits digits = some len)
-    (input : Str) (hguard : input.length ≤ 43)
+    (hguard : digits.length ≤ 9) (input : Str)
     (hs : strip input = IP.exploded ip ++ '/' :: digits ∨
       ∃ ws, ws ≠ [] ∧ (∀ c ∈ ws, isSpace c = true) ∧ strip input = IP.exploded ip ++ ws ++ digits) :
     V6.fromStr input = .ok (mk6 ip len) := by
   rw [← exploded_eq] at hs
   exact V6.fromStr_exploded input ip len digits hip hlen hne hd hv hguard hs
 
-/-- **IPv6 text forms, compressed (RFC 5952) spelling — partial.**  Proved: the stdlib layer of the
-constructor reads the text the class itself prints (`str(ip)`, `as_cidr_addr`, `compressed`) back to
-`(ip, len)` – this is what the copy constructor and every `network`-derived value rely on.
-Full statement (NOT proved): `∀ input, input.length ≤ 43 → strip input = strV6 ip ++ '/' :: toDec len →
-V6.fromStr input = .ok (mk6 ip len)`; missing is the lemma that the hand-written regex automaton
-(`matchHexForm`, the `:::` look-ahead) accepts `strV6 ip` – agreement on these texts is measured by the
-correspondence run on every check (compressed, upper-case, alternative `::` placements, embedded dotted quad). -/
-theorem v6_text_forms_compressed_partial (ip len : Nat) (hip : ip < 2 ^ 128) (hlen : len ≤ 128) :
+/-- **IPv6 text forms, compressed spelling** – the text the stdlib (and the class itself: `str(ip)`,
+`as_cidr_addr`) prints for `ip`, i.e. lower-case groups without leading zeros with the longest run of
+≥ 2 zero groups replaced by `::` – as `a`, `a/len`, `a<blanks>len`, with any surrounding blanks and
+ASCII digits (leading zeros allowed, at most 9 of them because of the 49-character guard) for `len`:
+the constructor builds the object of `(ip, len)`.  Covers the hand-written regex automaton (`:::`
+look-ahead, `opt1 | opt3 … opt11`, mask group), the blank-to-slash rewrite, the guard and the stdlib layer. -/
+theorem v6_text_forms_compressed (ip len : Nat) (hip : ip < 2 ^ 128) (hlen : len ≤ 128)
+    (digits : Str) (hne : digits ≠ []) (hd : ∀ c ∈ digits, isDigit c = true) (hv : ofDigits digits = some len)
+    (hguard : digits.length ≤ 9) (input : Str)
+    (hs : strip input = strV6 ip ++ '/' :: digits ∨
+      ∃ ws, ws ≠ [] ∧ (∀ c ∈ ws, isSpace c = true) ∧ strip input = strV6 ip ++ ws ++ digits) :
+    V6.fromStr input = .ok (mk6 ip len) :=
+  V6.fromStr_compressed input ip len digits hip hlen hne hd hv hguard hs
+
+/-- the same without a mask: prefix length 128 -/
+theorem v6_text_forms_compressed_plain (ip : Nat) (hip : ip < 2 ^ 128) (input : Str) (hs : strip input = strV6 ip) :
+    V6.fromStr input = .ok (mk6 ip 128) :=
+  V6.fromStr_compressed_plain input ip hip hs
+
+/-- the stdlib layer alone reads the printed text back (what the copy constructor and every
+`network`-derived value rely on) -/
+theorem v6_printed_text_reads_back (ip len : Nat) (hip : ip < 2 ^ 128) (hlen : len ≤ 128) :
     stdV6Addr (strV6 ip) = .ok ip ∧
     stdV6Net false (strV6 ip ++ '/' :: toDec len) = .ok ((mk6 ip len).net, len) :=
   ⟨stdV6Addr_strV6 ip hip, stdV6Net_cidr false ip len hip hlen (fun h => by cases h)⟩
 
+-- non-vacuity: a leading `::`, blanks around and as separator; the bare `::`; an inner run, upper case
+example : V6.fromStr " ::1 64 ".toList = .ok (mk6 1 64) := by rfl
+example : V6.fromStr "::/0".toList = .ok (mk6 0 0) := by rfl
+example : V6.fromStr "2001:DB8::8:800:200C:417A/64".toList = .ok (mk6 0x20010DB80000000000080800200C417A 64) := by rfl
+
 /-- **IPv6 rejects — partial** (this is the statement F16 violated before the regex was anchored): whenever
-the text constructor returns an object, the raw input had at most 43 characters and, after `strip()`
-and the blank-to-slash rewrite, the *whole* text is `addr` (then `len = 128`) or `addr<sep>digits`
-where `addr` is exactly the text the stdlib parsed into the stored address and `digits` are ASCII
-digits whose value is the stored prefix length ≤ 128; the object is the object of `(ip, len)`.
+the text constructor returns an object, then after `strip()` and the blank-to-slash rewrite the
+*whole* text (at most 49 characters) is `addr` (then `len = 128`) or `addr<sep>digits` where `addr` is
+exactly the text the stdlib parsed into the stored address and `digits` are ASCII digits whose value
+is the stored prefix length ≤ 128; the object is the object of `(ip, len)`.
 Full statement (NOT proved): additionally `addr` is one of the RFC 4291 spellings of `o.ip`
 (a property of the stdlib parser model `stdV6Int` alone, measured against the real `ipaddress`). -/
 theorem v6_rejects_partial (input : Str) (o : Obj) (h : V6.fromStr input = .ok o) :
-    input.length ≤ 43 ∧ o = mk6 o.ip o.len ∧ o.len ≤ 128 ∧
-    ∃ joined addr,
+    o = mk6 o.ip o.len ∧ o.len ≤ 128 ∧
+    ∃ joined addr, joined.length ≤ 49 ∧
       (splitWs (strip input) = [joined] ∨ ∃ a b, splitWs (strip input) = [a, b] ∧ joined = a ++ '/' :: b) ∧
       stdV6Addr addr = .ok o.ip ∧
       ((strip joined = addr ∧ o.len = 128) ∨
@@ -371,5 +391,8 @@ example : V6.fromStr "1:2:3:4:5:6:7:8:9".toList = .error .addressValueError := b
 example : V6.fromStr "1::g".toList = .error .addressValueError := by rfl
 example : V6.fromStr "::1/129".toList = .error .netmaskValueError := by rfl
 example : V6.fromStr "::1 64 5".toList = .error .notImplementedError := by rfl
+-- the guard no longer counts surrounding blanks (F33 repaired); 50 characters after normalisation are still refused
+example : (V6.fromStr "   ffff:ffff:ffff:ffff:ffff:ffff:ffff:ffff/128   ".toList).toOption.isSome = true := by rfl
+example : V6.fromStr "ffff:ffff:ffff:ffff:ffff:ffff:ffff:ffff/0000000128".toList = .error .requirementFailure := by rfl
 
 end Ccp.C11
